@@ -690,6 +690,80 @@ def judge_tri(inp, obs, lr):
     return None
 
 
+# ---- triangle groups, correspondence: the objects of GT.C08.triangle_angles (form3, vertex, tangent, bil) ----------
+def _cs(m):
+    """-cos(pi/m) as the model is given it: exact where rational, else the double math.cos produces (sent exactly)"""
+    if m <= 0:
+        return "-1"
+    if m in (2, 3):
+        return {2: "0", 3: "-1/2"}[m]
+    return Q.qs(-math.cos(math.pi / m))
+
+
+def gen_tricorr(rng, n):
+    rat = [t for t in itertools.product((2, 3, 0), repeat=3) if sum(1.0 / x for x in t if x > 0) < 1 - 1e-9]
+    trip = list(HYP_TRIPLES)
+    rng.shuffle(trip)
+    for t in (rat + [(2, 3, 7), (3, 3, 4), (2, 4, 5), (5, 2, 0), (12, 12, 12)] + trip)[:n]:
+        t = [rng.choice(X.INF) if x <= 0 else x for x in t]
+        x = [str(F(rng.randrange(-6, 7), rng.randrange(1, 5))) for _ in range(3)]
+        y = [str(F(rng.randrange(-6, 7), rng.randrange(1, 5))) for _ in range(3)]
+        yield {"pqr": t, "x": x, "y": y}
+
+
+def run_tricorr(inp):
+    from geometry_tools import coxeter
+    out = run_tri(inp)
+    G = coxeter.TriangleGroup(tuple(inp["pqr"]))
+    B = np.asarray(G.bilinear_form(), dtype=float)
+    out["form"] = B.tolist()
+    x, y = [float(F(t)) for t in inp["x"]], [float(F(t)) for t in inp["y"]]
+    out["bil"] = float(np.asarray(GU.apply_bilinear(np.array(x), np.array(y), B)).reshape(-1)[0])
+    return out
+
+
+def lean_tricorr(inp, obs):
+    if "exc" in obs:
+        return []
+    p, q, r = inp["pqr"]
+    return [{"op": "c08.triangle", "a": _cs(p), "b": _cs(r), "c": _cs(q), "x": inp["x"], "y": inp["y"]}]
+
+
+def judge_tricorr(inp, obs, lr):
+    if "exc" in obs:
+        return {"expected": "triangle", "observed": obs, "tags": {"exc": obs["exc"]}}
+    if "err" in lr[0]:
+        return {"expected": "model answer", "observed": lr[0], "tags": {"driver_err": lr[0]["err"][:40]}}
+    r = lr[0]["ok"]
+    mform = [[float(F(t)) for t in row] for row in r["form"]]
+    if not close(np.array(obs["form"]), np.array(mform), 1e-12):
+        return {"expected": {"model form3 a b c": mform}, "observed": {"TriangleGroup.bilinear_form": obs["form"]},
+                "tags": {"what": "triangle-form"}}
+    mb = float(F(r["bil"]))
+    if abs(obs["bil"] - mb) > 1e-9 * (1 + abs(mb)):
+        return {"expected": {"model bil B x y": mb}, "observed": {"utils.apply_bilinear": obs["bil"]}, "tags": {"what": "apply-bilinear"}}
+    has_inf = any(l <= 0 for l in inp["pqr"])
+    atol = 2e-4 if has_inf else 1e-6
+    for k, lab in enumerate(inp["pqr"]):
+        # the implementation's vertex k is the fixed point of ab / bc / ca: the model vertex opposite to mirror (k + 2) % 3
+        mv = r["verts"][(k + 2) % 3]
+        tags = {"label": "inf" if lab <= 0 else "finite", "what": "triangle-vertex"}
+        # B(vertex,vertex) = det(B) (1 - B_ij^2) (triangle_angles): exactly 0 iff the label is infinite (B_ij = -1 is sent exactly)
+        ideal_model = F(mv["norm"]) == 0
+        ideal_impl = obs["norms"][k] > -1e-4
+        if ideal_model != ideal_impl:
+            return {"expected": {"model B(vertex,vertex)": mv["norm"]}, "observed": {"normalised Minkowski norm": obs["norms"][k]},
+                    "tags": {**tags, "what": "triangle-ideal"}}
+        if not ideal_model:
+            uu, ww, uw = float(F(mv["uu"])), float(F(mv["ww"])), float(F(mv["uw"]))
+            c = uw / math.sqrt(uu * ww)
+            a = obs["angles"][k]
+            if a is None or abs(math.cos(a) - c) > atol:
+                return {"expected": {"model cos of the interior angle, B(u,w)/sqrt(B(u,u)B(w,w))": c},
+                        "observed": {"angle": a, "cos": None if a is None else math.cos(a)}, "tags": {**tags, "what": "triangle-angle"}}
+    return None
+
+
 # ---- histories: several requests on ONE group object, inputs mutated by the caller after construction ----------
 HKINDS = ["geom", "canon", "diag", "canondiag", "hyp", "cartan"]
 
@@ -1229,6 +1303,11 @@ CLAUSES = [
     Clause("hyperbolic_oracle", "oracle", gen_hyp, run_hyp, judge_hyp, site="coxeter.CoxeterGroup.hyperbolic_rep",
            budget={"quick": 80, "thorough": 2000},
            what="forms of signature (d,1), rank 3-5: isometries(words) in O(d,1); generators are reflections in spacelike vectors"),
+    Clause("triangle_corr", "corr", gen_tricorr, run_tricorr, judge_tricorr, lean=lean_tricorr,
+           site="coxeter.TriangleGroup.bilinear_form / hyperbolic_rep / utils.apply_bilinear", budget={"quick": 30, "thorough": 120},
+           what="the objects of the triangle-angle theorem executed over Q: form3 a b c vs TriangleGroup.bilinear_form, bil vs "
+                "utils.apply_bilinear on rational vectors, and per vertex (adjugate column) ideal-or-not and the cosine of the angle "
+                "between the two tangent directions vs the angle measured on the fixed points of ab, bc, ca in hyperbolic_rep"),
     Clause("triangle_oracle", "oracle", gen_tri, run_tri, judge_tri, site="coxeter.TriangleGroup.hyperbolic_rep",
            budget={"quick": 80, "thorough": 2000},
            what="hyperbolic triples (p,q,r), labels 2..12 and infinite: fixed points of ab, bc, ca span a triangle with angles "
